@@ -83,9 +83,11 @@ CLAIMS.update({
  "C18": dict(engine="ASModel",
    text="Coq theorems over ASModel with a panicking rcu closure (panic on a chosen attempt, allocation on earlier ones): the unwind is exactly "
         "the drop of the guard rcu holds, no step of it writes any container, the call reports the panic; a computed run shows container and "
-        "counts exact afterwards. " + TIE + " The harness closure really panics (catch_unwind), with guards held and concurrent writers.",
-   note=NOTE + "Partial: panicking pointee destructors/Clone and panicking projections are not modelled nor exercised (candidate D6 of DESIGN.md "
-        "is neither confirmed nor refuted).",
+        "counts exact afterwards. " + TIE + " The harness closure really panics (catch_unwind), with guards held and concurrent writers. "
+        "Pointee destructors that panic inside an operation are exercised on the real crate under the scheduler (arena objects flagged panic-on-destroy, grids g04/g05: the "
+        "destructor panics inside a writer's slot walk while a guard on the removed value sits in a node not yet visited); the oracles judge those traces (not modelled).",
+   note=NOTE + "Known finding D6 (a destructor panicking inside the slot walk leaks the removed value's reference; memory-safe) is listed in known_findings.txt and printed as "
+        "KNOWN-FINDING. Panicking Clone and panicking projections are not exercised.",
    technique="Rocq/Coq proof (unwind lemmas) + trace correspondence with real panics"),
  "C15": dict(engine="RefCntModel",
    text="Coq theorems over Seq.RefCntModel (std Arc/Rc/Weak as a heap of (strong, weak, alive) cells whose primitives record every access; hand "
